@@ -120,6 +120,40 @@ def check(chk, repo):
             else:
                 rep.ev("DET-source", ev, False, f"nondeterministic source {name} inside a distance/fit/predict path")
     chk.note("clock_reads_checked", n_clock)
+    # (iv) hidden state in decorators: anything on a distance / fit / predict path that is wrapped by a decorator
+    # other than the known transparent ones keeps state between calls (memoisation) or changes the call
+    transparent = {"njit", "jit", "avoid_zero_division", "property", "setter", "wraps", "staticmethod", "classmethod"}
+    for fi in reach:
+        for d in fi.decorators:
+            last = d.split("(")[0].split(".")[-1]
+            if last not in transparent:
+                rep.fn("STATE-decorator", fi, f"@{d}", False,
+                       f"{fi.qual} is wrapped by @{d}: a cache or wrapper keeps state between calls, so results depend "
+                       "on the call history (stale entries survive a re-fit or a reused buffer)")
+    # (v) fit / predict do not change the model's configuration, and fit rebuilds its graph from its arguments
+    from ..common import check_fresh_graph, competitions_of, model_walk
+    from ..ir import Walker
+    for cls in ("SupervisedOPF", "SemiSupervisedOPF", "KNNSupervisedOPF", "UnsupervisedOPF"):
+        config = set()
+        for ci in repo.mro(cls):
+            init = ci.methods.get("__init__")
+            if init is not None:
+                wi = Walker(repo, init, self_class=cls, inline=lambda f: False)
+                for e in wi.events:
+                    if e.kind == "store" and e.target[0] == "attr" and e.target[1] == ("self",):
+                        config.add(e.target[2])
+        config.discard("subgraph")
+        for m in ("fit", "predict"):
+            w = model_walk(repo, cls, m)
+            if w.entry.cls != cls and m == "predict":
+                continue
+            bad = [e for e in w.events if e.kind == "store" and e.target[0] == "attr" and e.target[1] == ("self",)
+                   and e.target[2] in config]
+            rep.fn("STATE-config", w.entry, f"{cls}.{m} leaves the configuration {sorted(config)} untouched", not bad,
+                   "" if not bad else f"'{bad[0].text()[:80]}' changes an option of the model: a later fit/predict of the same "
+                   "object on other data gives different results than a fresh, identically configured model")
+        w, comps = competitions_of(repo, cls, "fit", 2)
+        check_fresh_graph(rep, w, comps[0].loop.first_seq, cls[:4] + ":")
     chk.undecided.append("bit-for-bit equality of two fits as a run-time fact (follows from determinism + no shared state)")
     chk.assumptions += ["NumPy view/copy rules as documented", "numba-compiled bodies have NumPy semantics",
                         "call resolution by method name is an over-approximation of the real call graph"]
